@@ -62,6 +62,9 @@ def work(task):
     rng = Rng("%s/C03/%s/%s" % (task["seed"], b, ty))
     cases = []
     for (u, v) in cl.unit_pairs(ent):
+        if not cl.pair_ok(b, ent["units"][u]["scale"], ent["units"][v]["scale"]):
+            part.count("pair_outside_decimal_ratio_range")
+            continue
         for (x, y, kind) in pairs_for(rng, b, ent, u, v, task["n"]):
             cases.append({"ty": ty, "u": u, "v": v, "x": x, "y": y, "kind": kind,
                           "reqs": [{"op": "arith", "ty": ty, "x": x, "u": u, "y": y, "v": v}]})
